@@ -145,8 +145,8 @@ def plain_text(rng, inflow):
             s += c
         if s.endswith((" ", ":")) or ": " in s or " #" in s or s.startswith(("---", "...")) or "  " in s and rng.random() < 0.7:
             continue
-        if inflow and re.search(r":[,\[\]{}]", s):
-            continue
+        if inflow and (re.search(r":[,\[\]{}]", s) or s.endswith(" -")):
+            continue      # ' -' before a flow indicator: recorded finding (dash-before-flow-indicator-in-plain-scalar)
         return s
 
 
@@ -225,6 +225,28 @@ class TreeGen:
         self.count("scalar-" + st)
         return self.props(n, defined)
 
+    def key(self, depth, flow, defined):
+        kr = self.rng.random()
+        if kr < 0.62:
+            return self.scalar(flow, defined, key=True)
+        if kr < 0.74:
+            self.count("null-key")
+            return self.props(Node("N"), defined, 0.1, 0.1)
+        self.count("complex-key")
+        return self.node(depth, flow, defined)
+
+    def value(self, depth, flow, defined):
+        if self.rng.random() < 0.15:
+            self.count("null-value")
+            return self.props(Node("N"), defined, 0.1, 0.1)
+        return self.node(depth, flow, defined)
+
+    def single_pair(self, depth, defined):
+        """a flow mapping with one pair and no properties: as a flow sequence entry it may be written without braces"""
+        self.count("single-pair")
+        k = self.key(depth + 1, True, defined)
+        return Node("M", flow=True, items=[(k, self.value(depth + 1, True, defined))])
+
     def node(self, depth, inflow, defined):
         """a node; defined: anchor names defined so far in this document (in order of appearance)"""
         rng = self.rng
@@ -244,7 +266,10 @@ class TreeGen:
             n = self.props(Node("Q", flow=flow, items=[]), defined, 0.12, 0.1)
             k = rng.choice([0, 1, 1, 2, 2, 3, 4]) if flow else rng.choice([1, 1, 2, 2, 3, 4])
             for _ in range(k):
-                x = self.node(depth + 1, flow, defined)
+                if flow and rng.random() < 0.28:
+                    x = self.single_pair(depth + 1, defined)
+                else:
+                    x = self.node(depth + 1, flow, defined)
                 if flow and x.empty():          # [150] a flow sequence entry cannot be left out altogether
                     x = self.scalar(True, defined)
                 n.items.append(x)
@@ -253,17 +278,8 @@ class TreeGen:
             n = self.props(Node("M", flow=flow, items=[]), defined, 0.12, 0.1)
             k = rng.choice([0, 1, 1, 2, 2, 3]) if flow else rng.choice([1, 1, 2, 2, 3])
             for _ in range(k):
-                kr = rng.random()
-                if kr < 0.62:
-                    key = self.scalar(flow, defined, key=True)
-                elif kr < 0.72:
-                    key = self.props(Node("N"), defined, 0.1, 0.1)
-                    self.count("null-key")
-                else:
-                    key = self.node(depth + 1, flow, defined)
-                    self.count("complex-key")
-                val = self.node(depth + 1, flow, defined)
-                n.items.append((key, val))
+                key = self.key(depth + 1, flow, defined)
+                n.items.append((key, self.value(depth + 1, flow, defined)))
             self.count("flow-map" if flow else "block-map")
         return n
 
@@ -283,15 +299,19 @@ class Renderer:
     """Writes a list of root nodes as a YAML stream.  All layout choices come from self.rng.  Text is produced strictly
     left to right (self.fms depends on it).
     opts: emptykey='avoid' (main stream: `[ : v ]` only while no '{' / flow '?' was written) | 'force';
-          qmark_empty=False (main stream: never `[ ? ]` / `[ ? : v ]`) | True;  explicit_pairs, calm: see __init__."""
+          qmark_empty=False (main stream: never `[ ? ]` / `[ ? : v ]`) | True;  the other options: see __init__."""
 
-    def __init__(self, rng, emptykey="avoid", qmark_empty=False, explicit_pairs=False, calm=False):
+    def __init__(self, rng, emptykey="avoid", qmark_empty=False, explicit_pairs=False, brace_value_pairs=False,
+                 force_zero_root=False, calm=False):
         self.rng = rng
         self.emptykey = emptykey
         self.qmark_empty = qmark_empty
         self.explicit_pairs = explicit_pairs      # single pairs in flow sequences always as '? k : v'
+        self.brace_value_pairs = brace_value_pairs   # dedicated stream: `[ k: {a: b, c: d} ]` allowed
         self.calm = calm          # fewer comments / blank lines (used when shrinking)
         self.fms = False
+        self.zero_root = False    # the current document's root is a block scalar with content at indentation 0
+        self.force_zero_root = force_zero_root   # dedicated stream: '---' may follow such a scalar (recorded finding)
         self.cov = {}
 
     def count(self, k):
@@ -320,7 +340,7 @@ class Renderer:
             if rng.random() < 0.5:
                 if not blanks:
                     break
-                out += rng.choice(["", "", " ", "   "]) + "\n"
+                out += (rng.choice(["", "", " ", "   "]) if cmax is None else " " * rng.randrange(0, max(cmax, 0) + 1)) + "\n"
                 self.count("blank-line")
             else:
                 ind = rng.randrange(0, 7)
@@ -480,7 +500,12 @@ class Renderer:
                 k, v = x.items[0]
                 r = rng.random()
                 # [151] ns-flow-pair = '?' separate explicit-entry | [152] ns-flow-pair-entry (implicit key: one line)
-                if k.empty():
+                if v.kind == "M" and v.items and not self.brace_value_pairs:
+                    pass      # `[ k: {a: b, c: d} ]`: recorded finding (the ',' ends the implicit pair): braces or '?' instead
+                    if r < 0.5 and not k.empty():
+                        self.count("flow-seq-pair-explicit")
+                        return self.flow_pair_explicit(k, v, ind, c)
+                elif k.empty():
                     if self.qmark_empty:
                         self.count("flow-seq-pair-qmark-empty")
                         return self.flow_pair_explicit(k, v, ind, c)
@@ -566,6 +591,11 @@ class Renderer:
         cind = ind + m
         if ind < 0 and rng.random() < 0.3:
             cind = ind + m + 1      # top level: n = -1, indentation 0 is allowed
+        if ind < 0 and self.force_zero_root:
+            cind, explicit = 0, False
+        if cind == 0:
+            self.zero_root = True
+            self.count("block-scalar-root-indent-0")
         out += "|" if n.style == "L" else ">"
         ch = n.chomp
         ind_s = str(cind - ind) if explicit else ""
@@ -633,10 +663,12 @@ class Renderer:
         [192] implicit entry = (implicit key | e-node) ':' (block-node(n,block-out) | e-node s-l-comments)"""
         rng = self.rng
         out = ""
+        no_value = False      # the previous entry was '? key' without a ':' line: a ': v' line would be read as its value
         for i, (k, v) in enumerate(n.items):
             if i or not inline_first:
                 out += " " * ind
-            if self.implicit_key_ok(k) and rng.random() < 0.8:
+            if self.implicit_key_ok(k) and rng.random() < 0.8 and not (no_value and k.empty()):
+                no_value = False
                 ks = self.flow_node(k, 0, "block-key")              # [154]/[155] single line
                 if ks and (k.kind in "AN" or rng.random() < 0.12):
                     ks += self.sp()
@@ -647,7 +679,8 @@ class Renderer:
             else:
                 self.count("block-explicit-entry")
                 out += "?" + self.block_indented(k, ind, "block-out")
-                if v.empty() and rng.random() < 0.5:
+                no_value = v.empty() and rng.random() < 0.5
+                if no_value:
                     self.count("block-explicit-no-value")
                     continue
                 out += " " * ind + ":" + self.block_indented(v, ind, "block-out")
@@ -676,6 +709,9 @@ class Renderer:
                 out += self.block_node(root, -1, "block-in", sol=True)
             explicit.append(start)
             closed = rng.random() < 0.3
+            if self.zero_root and i + 1 < len(docs):
+                closed = not self.force_zero_root      # '---' after a zero-indented root block scalar: recorded finding, '...' works
+            self.zero_root = False
             if closed:
                 self.count("doc-end-marker")
                 out += "..." + self.eol()
@@ -696,14 +732,19 @@ KNOWN_EMPTYKEY_RE = re.compile(r"\{[\s\S]*[\[,]\s*:[\s\],]")
 
 
 def flow_marks(text):
-    """Walks over the text keeping the stack of open flow collections (quoted scalars and comments skipped) and returns
-    the list of marks in text order: '{' (a flow mapping was opened), '?' (explicit-key indicator in flow context),
-    'emptykey' (an entry of a flow SEQUENCE that starts with ':'), 'qempty' (an entry of a flow SEQUENCE that is '?'
-    followed by ':' ',' or ']')."""
+    """Walks over the text keeping the stack of open flow collections (quoted scalars and comments skipped) and the two
+    scanner flags the recorded findings hinge on (flow_mapping_started; per open flow sequence: inside an implicit single
+    pair).  Returns the marks, in text order:
+      'emptykey{' / 'emptykey?'  an entry of a flow SEQUENCE starts with ':' while flow_mapping_started is set (last set
+                                 by a '{' / by a '?' in flow context)
+      'qempty'                   an entry of a flow SEQUENCE is '?' followed by ':' ',' or ']'
+      'bracecomma'               a ',' inside '{...}' while the innermost enclosing flow sequence is inside an implicit
+                                 single pair (the value of `[ k: {a: b, c: d} ]`)"""
     marks = []
-    stack = []
+    stack = []                 # '[' frames: ['[', inside]; '{' frames: ['{']
     i, n = 0, len(text)
     entry_start = False        # in a flow collection, right after '[' '{' or ','
+    fms = ""                   # '' (clear) or the indicator that set flow_mapping_started last
 
     def skip_ws(j):
         while j < n:
@@ -715,6 +756,12 @@ def flow_marks(text):
             else:
                 break
         return j
+
+    def seq_frame():
+        for f in reversed(stack):
+            if f[0] == "[":
+                return f
+        return None
 
     while i < n:
         c = text[i]
@@ -738,39 +785,70 @@ def flow_marks(text):
             i = j + 1
             entry_start = False
             continue
-        if c in "[{":
-            if stack or prev in " \t\r\n[{,:-?" or i == 0:
-                stack.append(c)
-                if c == "{":
-                    marks.append("{")
-                entry_start = True
+        if not stack and c not in "[{":
+            # block context: skip indicators, properties and whole plain scalars (a '[' inside one is text)
+            if c in " \t\r\n":
                 i += 1
-                continue
+            elif prev == "\n" and text.startswith(("---", "..."), i) and (i + 3 >= n or text[i + 3] in " \t\r\n"):
+                i += 3
+            elif c in "-?:" and (i + 1 >= n or text[i + 1] in " \t\r\n"):
+                i += 1
+            elif c in "&*!":
+                while i < n and text[i] not in " \t\r\n":
+                    i += 1
+            else:
+                while i < n and text[i] != "\n":
+                    if text[i] == ":" and (i + 1 >= n or text[i + 1] in " \t\r\n"):
+                        break
+                    if text[i] == "#" and text[i - 1] in " \t":
+                        break
+                    i += 1
+            continue
+        if c in "[{":
+            stack.append([c, False])
+            if c == "{":
+                fms = "{"
+            entry_start = True
+            i += 1
+            continue
         if c in "]}" and stack:
-            stack.pop()
+            f = stack.pop()
+            if f[0] == "[" and f[1]:
+                fms = ""
             entry_start = False
             i += 1
             continue
         if stack:
             if c == ",":
+                f = seq_frame()
+                if f is not None and f[1]:
+                    if stack[-1][0] == "{":
+                        marks.append("bracecomma")
+                    f[1] = False
+                    fms = ""
                 entry_start = True
                 i += 1
                 continue
             if c in " \t\r\n":
                 i += 1
                 continue
-            if entry_start:
-                if c == ":" and (i + 1 >= n or text[i + 1] in " \t\r\n,]}"):
-                    if stack[-1] == "[":
-                        marks.append("emptykey")
-                elif c == "?" and (i + 1 >= n or text[i + 1] in " \t\r\n"):
-                    marks.append("?")
-                    j = skip_ws(i + 1)
-                    if stack[-1] == "[" and j < n and (text[j] in ",]" or (text[j] == ":" and (j + 1 >= n or text[j + 1] in " \t\r\n,]}"))):
-                        marks.append("qempty")
-                    i += 1
-                    continue      # the key follows: still at the start of the entry's key
+            is_value = c == ":" and (i + 1 >= n or text[i + 1] in " \t\r\n,]}" or prev in "'\"]}")
+            if is_value and stack[-1][0] == "[":
+                if entry_start and fms:
+                    marks.append("emptykey" + fms)
+                if not fms:
+                    stack[-1][1] = True
                 entry_start = False
+                i += 1
+                continue
+            if entry_start and c == "?" and (i + 1 >= n or text[i + 1] in " \t\r\n"):
+                fms = "?"
+                j = skip_ws(i + 1)
+                if stack[-1][0] == "[" and j < n and (text[j] in ",]" or (text[j] == ":" and (j + 1 >= n or text[j + 1] in " \t\r\n,]}"))):
+                    marks.append("qempty")
+                i += 1
+                continue      # the key follows
+            entry_start = False
         i += 1
     return marks
 
@@ -781,23 +859,42 @@ def known_classes(text):
     out = []
     if "qempty" in m:
         out.append("explicit-key-indicator-without-key-in-flow-sequence")
-    seen_brace = seen_q = False
-    a = b = False
-    for x in m:
-        if x == "{":
-            seen_brace = True
-        elif x == "?":
-            seen_q = True
-        elif x == "emptykey":
-            if seen_brace:
-                a = True
-            elif seen_q:
-                b = True
-    if a and KNOWN_EMPTYKEY_RE.search(text):
+    if "emptykey{" in m and KNOWN_EMPTYKEY_RE.search(text):
         out.append("empty-key-flow-pair-after-flow-mapping")
-    if b:
+    if "emptykey?" in m:
         out.append("empty-key-flow-pair-after-flow-explicit-key")
+    if "bracecomma" in m:
+        out.append("comma-of-nested-flow-mapping-ends-implicit-pair")
+    if zero_indent_root_scalar_before_doc_start(text):
+        out.append("document-start-marker-in-zero-indented-root-block-scalar")
+    if re.search(r"[\[{,][^\n'\"#]*[^\s'\"#]\s+-[,\]}]", text):
+        out.append("dash-before-flow-indicator-in-plain-scalar")
     return out
+
+
+def zero_indent_root_scalar_before_doc_start(text):
+    """a block scalar that is the root node of a document, with content at indentation 0, followed by a '---' line
+    (before any '...' line)"""
+    lines = text.split("\n")
+    hdr = re.compile(r"^(--- +)?([!&][^ ]* +)*[|>][-+1-9]*[ ]*(#.*)?$")
+    i = 0
+    while i < len(lines):
+        if hdr.match(lines[i]):
+            j = i + 1
+            while j < len(lines) and lines[j].strip() == "":
+                j += 1
+            if j < len(lines) and not lines[j].startswith((" ", "---", "...")):
+                k = j
+                while k < len(lines):
+                    if re.match(r"^\.\.\.( |$)", lines[k]):
+                        break
+                    if re.match(r"^---( |$)", lines[k]):
+                        return True
+                    k += 1
+                i = k
+                continue
+        i += 1
+    return False
 
 
 def load_known():
@@ -827,32 +924,51 @@ def known_stream(rng, count):
     """small streams built around the recorded classes: (docs, render options)"""
     out = []
     null = lambda: Node("N")
+    fmap = lambda items: Node("M", flow=True, items=items)
+    fseq = lambda items: Node("Q", flow=True, items=items)
     for _ in range(count):
-        kind = rng.choice(["brace", "brace", "qmark", "qempty", "qempty"])
-        v = rng.choice([sc("v"), sc("x y"), sc("q", "S"), null(), Node("Q", flow=True, items=[sc("z")])])
-        pair = Node("M", flow=True, items=[(null(), v)])
+        kind = rng.choice(["brace", "brace", "qmark", "qempty", "qempty", "bracecomma", "bracecomma", "zeroroot", "dash"])
+        v = rng.choice([sc("v"), sc("x y"), sc("q", "S"), null(), fseq([sc("z")])])
         others = [sc(rng.choice("abc")) for _ in range(rng.randrange(0, 3))]
         pos = rng.randrange(0, len(others) + 1)
-        seq = Node("Q", flow=True, items=others[:pos] + [pair] + others[pos:])
+
+        def embed(x):
+            w = rng.random()
+            if w < 0.3:
+                return Node("M", flow=False, items=[(sc("k"), x)])
+            if w < 0.6:
+                return Node("Q", flow=False, items=[x, sc("w")])
+            return x
+        if kind == "zeroroot":
+            lines = [rng.choice(["ab", "k: v", "- x"]) for _ in range(rng.randrange(1, 3))]
+            st = rng.choice("LF")
+            first = Node("S", style=st, lines=lines, chomp=rng.choice(["", "-"]))
+            first.text = ("\n".join(lines) if st == "L" else fold_text(lines)) + ("" if first.chomp == "-" else "\n")
+            out.append(([first, embed(sc("c"))], dict(force_zero_root=True)))
+            continue
+        if kind == "dash":
+            seq = fseq(others[:pos] + [sc(rng.choice(["a -", "x y -", "-a -"]))] + others[pos:])
+            out.append(([embed(seq)], dict()))
+            continue
+        if kind == "bracecomma":
+            inner = fmap([(sc("a"), sc("b")), (sc("c"), rng.choice([sc("d"), null()]))][:rng.choice([1, 2, 2])])
+            pair = fmap([(rng.choice([sc("k"), sc("k", "D"), null()]), inner)])
+            out.append(([embed(fseq(others[:pos] + [pair] + others[pos:]))], dict(brace_value_pairs=True, emptykey="force")))
+            continue
+        pair = fmap([(null(), v)])
+        seq = fseq(others[:pos] + [pair] + others[pos:])
         if kind == "qempty":
-            target = seq
-            wrap = rng.random()
-            if wrap < 0.3:
-                target = Node("M", flow=False, items=[(sc("k"), seq)])
-            elif wrap < 0.6:
-                target = Node("Q", flow=False, items=[seq, sc("w")])
-            out.append(([target], dict(qmark_empty=True)))
+            out.append(([embed(seq)], dict(qmark_empty=True)))
             continue
         if kind == "brace":
-            first = rng.choice([Node("M", flow=True, items=[(sc("x"), null())]), Node("M", flow=True, items=[]),
-                                Node("M", flow=False, items=[(sc("k"), Node("M", flow=True, items=[(sc("a"), sc("b"))]))])])
+            first = rng.choice([fmap([(sc("x"), null())]), fmap([]), Node("M", flow=False, items=[(sc("k"), fmap([(sc("a"), sc("b"))]))])])
         else:
-            first = Node("Q", flow=True, items=[Node("M", flow=True, items=[(sc("a"), sc("b"))])])
+            first = fseq([fmap([(sc("a"), sc("b"))])])
         r = rng.random()
         if r < 0.4:
             docs = [first, seq]
         elif r < 0.7 and first.flow:
-            docs = [Node("Q", flow=True, items=[first, pair] + others)]
+            docs = [fseq([first, pair] + others)]
         else:
             docs = [Node("Q", flow=False, items=[first, seq])]
         out.append((docs, dict(emptykey="force", explicit_pairs=(kind == "qmark"))))
@@ -1258,10 +1374,9 @@ def check_C03(tier, seed):
                                    backend=bad[0]),
                               got=";".join(bad[1])[-900:] + "|" + bad[2], expected=";".join(exp)[-900:], shrunk=small,
                               same_symptom_elsewhere=sum(1 for k in first_bad if k == key))
-        if main_known_pattern:
-            res.add_tie_break("the main stream contains %d inputs of a recorded finding class (the renderer should avoid them)" % main_known_pattern)
         res.coverage["generated"] = dict(streams=len(cases), main=sum(1 for c in cases if c[6] == "main"),
                                          known_stream=sum(1 for c in cases if c[6] == "known"), agree_with_tree=n_ok,
+                                         main_stream_inputs_matching_a_known_predicate=main_known_pattern,
                                          sizes=sizes, constructs=dict(sorted(cov_tree.items())),
                                          layout_choices=dict(sorted(cov_layout.items())))
         res.coverage["traces_validated_against_impl"] = len(cases)
